@@ -96,7 +96,8 @@ CONDS_FN = ['"yes"[1:2]', '""', '","', 'name[5:]',    # text that is not one of 
             '10 / v > 2', 'NAMES[v] == "ann"', 'name[2] == "n"', 'NAMES[v + 1] != "zz"', 'int(name) > 0 or True',
             '[0, 1][v] == 1', 'v > 0 and NAMES[v - 1] == "ann"',
             'FrameCollector is not None', 'bool(v)', 'v in (1, 3, 5)',
-            'format == "csv"', 'format != "csv"', 'id > 70 + v', 'len(filter) == v']
+            'format == "csv"', 'format != "csv"', 'id > 70 + v', 'len(filter) == v',
+            '(lambda: GLOBAL_LIMIT)() < v', 'any(x == GLOBAL_LIMIT for x in (v, 1))']
 CONDS_MOD = ['GLOBAL_LIMIT == 3', 'GLOBAL_LIMIT > 5', 'helper is not None', 'len(NAMES) == 3', 'nope_zz', '',
              'uuid is not None', '"MOD_MARK" in dir()', 'format == "csv"', 'id < 5']
 EXPRS = ['ValueError("kept", v)', 'obj.problem',      # expressions whose *value* is an exception object (nothing is raised)
@@ -104,7 +105,9 @@ EXPRS = ['ValueError("kept", v)', 'obj.problem',      # expressions whose *value
          'v', 'name', 'v + 1', 'GLOBAL_LIMIT', 'NAMES', 'helper(v)', 'len(NAMES)', 'NAMES[0] + name', 'obj.ok',
          'obj.tags', 'sorted(NAMES)', 'max(v, GLOBAL_LIMIT)', 'uuid', 'FrameCollector', 'time_ns', 'deep',
          'undefined_zz', '1/0', 'fail_with("x")', 'raise_base()', 'str(flag)', '[v, GLOBAL_LIMIT]', 'abs(-v)',
-         'format', 'id + v', 'filter', 'format.upper() + name']
+         'format', 'id + v', 'filter', 'format.upper() + name',
+         # a module global that is read only inside a nested scope of the expression
+         'sum(x * GLOBAL_LIMIT for x in [1, 2, v])', '(lambda k: k + GLOBAL_LIMIT)(v)', '[helper(x) for x in (v, 0)]']
 EXPRS_INNER = ['captured', 'captured + v', 'use']
 EXPRS_METH = ['self.scale', 'self.scale * v', 'K.scale']
 AGENT_NAMES = ('uuid', 'FrameCollector', 'time_ns', 'deep')
